@@ -178,6 +178,16 @@ func (w *World) followToSinksB(v ssa.Value, depth int, seen map[ssa.Value]bool, 
 }
 
 func (w *World) classifyCallUse(call ssa.CallInstruction, v ssa.Value, viaVarargs bool, depth int, seen map[ssa.Value]bool, other *[]ssa.Instruction, bs bindings) []sinkUse {
+	out := w.classifyCallUse0(call, v, viaVarargs, depth, seen, other, bs)
+	for i := range out {
+		if out[i].Bs == nil {
+			out[i].Bs = bs
+		}
+	}
+	return out
+}
+
+func (w *World) classifyCallUse0(call ssa.CallInstruction, v ssa.Value, viaVarargs bool, depth int, seen map[ssa.Value]bool, other *[]ssa.Instruction, bs bindings) []sinkUse {
 	cc := call.Common()
 	f := cc.StaticCallee()
 	argIdx := -1
@@ -335,6 +345,7 @@ func c16Format(w *World, r *Report) {
 		r.fail(rule, "result-and-error-used", w.instrPos(call), "FormatPacketDsl's text or error result is discarded")
 		return
 	}
+	c16FormatInput(w, r, run, call)
 	// error edge: exits non-zero, no file write
 	errHandled := false
 	for _, b := range run.Blocks {
@@ -449,6 +460,7 @@ func c16Format(w *World, r *Report) {
 	if len(fileSinks) != 1 {
 		r.fail(rule, "file-sink-is-result", w.instrPos(call), fmt.Sprintf("expected exactly one file sink for the formatter result, found %d", len(fileSinks)))
 	}
+	var fileVar *ssa.Global
 	for _, s := range fileSinks {
 		c := s.Instr.(ssa.CallInstruction)
 		okPath := false
@@ -469,8 +481,14 @@ func c16Format(w *World, r *Report) {
 			if u, ok := p.(*ssa.UnOp); ok && u.Op == token.MUL {
 				if g, ok := u.X.(*ssa.Global); ok && w.flagNamesOf(g)["file"] {
 					okPath = true
+					fileVar = g
 				}
 			}
+		}
+		if okPath && fileVar != nil && !emptinessGuard(s.Instr.Parent(), s.Bs, fileVar, s.Instr.Block(), true) {
+			r.fail(rule, "file-sink-only-with--f", w.instrPos(s.Instr), "the file is written on a path that is not the non-empty edge of a test of the -f value: the result is written to a file although -f was not given")
+		} else if okPath {
+			r.pass(rule, "file-sink-only-with--f", w.instrPos(s.Instr), "")
 		}
 		switch {
 		case !okPath:
@@ -479,6 +497,16 @@ func c16Format(w *World, r *Report) {
 			r.fail(rule, "file-sink-is-result", w.instrPos(s.Instr), "os.WriteFile is not dominated by the err == nil edge of FormatPacketDsl")
 		default:
 			r.pass(rule, "file-sink-is-result", w.instrPos(s.Instr), "os.WriteFile(file, []byte(result))")
+		}
+	}
+	for _, s := range stdoutSinks {
+		if fileVar == nil {
+			continue
+		}
+		if emptinessGuard(s.Instr.Parent(), s.Bs, fileVar, s.Instr.Block(), false) {
+			r.pass(rule, "stdout-sink-only-without--f", w.instrPos(s.Instr), "")
+		} else {
+			r.fail(rule, "stdout-sink-only-without--f", w.instrPos(s.Instr), "the result is printed on a path that is not the empty edge of a test of the -f value: with -f the text is printed instead of (or in addition to) being written back")
 		}
 	}
 	// "and nothing else": every other stdout write in Run must be on an error path (leads to os.Exit non-zero) .
@@ -504,10 +532,54 @@ func c16Format(w *World, r *Report) {
 				reachesSuccess = true
 			}
 		}
-		if reachesSuccess {
+		// ... and when it reports a failure: dominated by the non-nil edge of an error test, or on a path that only exits
+		onError := false
+		for _, bb := range run.Blocks {
+			cond := branchCond(bb)
+			if cond == nil {
+				continue
+			}
+			x, nn, ok := nilTest(cond)
+			if ok && isErrorType(x.Type()) && edgeDominates(bb, nn, b) {
+				onError = true
+			}
+		}
+		if !onError && !blockReaches(b, func(i ssa.Instruction) bool { _, isRet := i.(*ssa.Return); return isRet }) {
+			onError = true // nothing but an exit follows
+		}
+		if reachesSuccess || !onError {
 			extra = append(extra, w.instrPos(ins))
 		}
 	})
+	// the same inside the wrappers the result travels through (a print after the file sink, say)
+	wrappers := map[*ssa.Function]bool{}
+	for _, s := range append(append([]sinkUse{}, stdoutSinks...), fileSinks...) {
+		if s.Instr.Parent() != run {
+			wrappers[s.Instr.Parent()] = true
+		}
+	}
+	for _, wf := range sortedFuncs(wrappers) {
+		forEachInstr(wf, func(b *ssa.BasicBlock, ins ssa.Instruction) {
+			c, ok := ins.(ssa.CallInstruction)
+			if !ok || !isStdoutWrite(c) || sinkInstr[ins] {
+				return
+			}
+			onError := false
+			for _, bb := range wf.Blocks {
+				cond := branchCond(bb)
+				if cond == nil {
+					continue
+				}
+				x, nn, ok := nilTest(cond)
+				if ok && isErrorType(x.Type()) && edgeDominates(bb, nn, b) {
+					onError = true
+				}
+			}
+			if !onError {
+				extra = append(extra, w.instrPos(ins))
+			}
+		})
+	}
 	if len(extra) > 0 {
 		r.fail(rule, "no-other-stdout-in-run", extra[0], "stdout write(s) on the success path besides the result: "+strings.Join(extra, ", "))
 	} else {
@@ -897,6 +969,75 @@ func c16Compile(w *World, r *Report) {
 						guarded = true
 					}
 				}
+			}
+			// the target is generated only when its output directory was given
+			wanted := false
+			blk = c.call.Block()
+			for i := len(c.frames); i >= 0 && !wanted; i-- {
+				fn, env := c.fn, c.env
+				if i < len(c.frames) {
+					fn, env, blk = c.frames[i].call.Parent(), c.frames[i].env, c.frames[i].call.Block()
+				}
+				le := env
+				if label != "" {
+					le = d.withLit(env, d.lastTable, d.lastTable.lits[d.labelIndex(label)])
+				}
+				for _, bb := range fn.Blocks {
+					cond := branchCond(bb)
+					if cond == nil {
+						continue
+					}
+					neg := false
+					cc := cond
+					for {
+						if u, ok := cc.(*ssa.UnOp); ok && u.Op == token.NOT {
+							neg = !neg
+							cc = u.X
+							continue
+						}
+						break
+					}
+					bo, ok := cc.(*ssa.BinOp)
+					if !ok || (bo.Op != token.NEQ && bo.Op != token.EQL) {
+						continue
+					}
+					var other ssa.Value
+					if s, ok := constString(bo.X); ok && s == "" {
+						other = bo.Y
+					} else if s, ok := constString(bo.Y); ok && s == "" {
+						other = bo.X
+					}
+					if other == nil {
+						continue
+					}
+					if sv := d.eval(other, le, 0); sv.Kind != "outkey" || sv.S != dir.S {
+						continue
+					}
+					nonEmptyOnTrue := bo.Op == token.NEQ
+					if neg {
+						nonEmptyOnTrue = !nonEmptyOnTrue
+					}
+					succ := 1
+					if nonEmptyOnTrue {
+						succ = 0
+					}
+					if edgeDominates(bb, succ, blk) {
+						wanted = true
+					}
+				}
+			}
+			wkey := fmt.Sprintf("outputs[%q] is written only when it was given", dir.S)
+			if wanted {
+				r.pass(rule, wkey, w.instrPos(c.call), "")
+			} else {
+				r.fail(rule, wkey, w.instrPos(c.call), "the write is not dominated by the non-empty edge of a test of this output directory: a target that was not requested is generated (into the current directory), or a requested one is skipped")
+			}
+			// a failed write becomes Compile's error
+			dkey := fmt.Sprintf("a failed write below outputs[%q] becomes Compile's error", dir.S)
+			if ev := errResultOf(c.call); ev != nil && d.delivered(c.fn, ev, 0) {
+				r.pass(rule, dkey, w.instrPos(c.call), "")
+			} else {
+				r.fail(rule, dkey, w.instrPos(c.call), "WriteCodeToFile's error is dropped or inverted: a write failure exits 0")
 			}
 			key := fmt.Sprintf("files of %s are written only after its error was nil", mp.S)
 			if guarded {
@@ -1353,8 +1494,25 @@ func c16Execute(w *World, r *Report) {
 				}
 			}
 		})
-		return usesCommands && usesName && !literalCmp && trueOnMatch,
-			fmt.Sprintf("Commands()=%v Name()=%v literal-compare=%v returns-true-on-match=%v", usesCommands, usesName, literalCmp, trueOnMatch)
+		// every other return says "not a subcommand"
+		falseOtherwise := true
+		nTrue := 0
+		forEachInstr(f, func(b *ssa.BasicBlock, ins ssa.Instruction) {
+			if ret, ok := ins.(*ssa.Return); ok && len(ret.Results) == 1 {
+				if k, ok := ret.Results[0].(*ssa.Const); ok && k.Value != nil && k.Value.Kind() == constant.Bool {
+					if constant.BoolVal(k.Value) {
+						nTrue++
+					}
+				} else {
+					falseOtherwise = false
+				}
+			}
+		})
+		if nTrue != 1 {
+			falseOtherwise = false
+		}
+		return usesCommands && usesName && !literalCmp && trueOnMatch && falseOtherwise,
+			fmt.Sprintf("Commands()=%v Name()=%v literal-compare=%v returns-true-on-match=%v false-otherwise=%v", usesCommands, usesName, literalCmp, trueOnMatch, falseOtherwise)
 	}
 	found := false
 	for _, fn := range sortedFuncs(set) {
@@ -1498,6 +1656,70 @@ func c16Execute(w *World, r *Report) {
 	if !found {
 		r.fail(rule, "compile inserted only when arg1 is not a subcommand", w.pos(exec.Pos()), "no rewrite of os.Args inserting \"compile\" found under Execute")
 	}
+	// every command object of the package is registered with the root command (the one Execute dispatches on)
+	var root *ssa.Global
+	for _, c := range callsTo(exec, "(*github.com/spf13/cobra.Command).Execute") {
+		if len(c.Common().Args) > 0 {
+			if ld, ok := c.Common().Args[0].(*ssa.UnOp); ok {
+				if g, ok := ld.X.(*ssa.Global); ok {
+					root = g
+				}
+			}
+		}
+	}
+	if root == nil {
+		r.fail(rule, "root command found", w.pos(exec.Pos()), "Execute does not dispatch on a package-level cobra command")
+		return
+	}
+	added := map[*ssa.Global]bool{}
+	for _, fn := range w.srcFuncs {
+		if fn.Pkg != w.Cmd {
+			continue
+		}
+		for _, c := range callsTo(fn, "(*github.com/spf13/cobra.Command).AddCommand") {
+			args := c.Common().Args
+			if len(args) < 2 {
+				continue
+			}
+			if ld, ok := args[0].(*ssa.UnOp); !ok || ld.X != ssa.Value(root) {
+				continue
+			}
+			// variadic slice of loaded globals
+			if sl, ok := args[1].(*ssa.Slice); ok {
+				if al, ok := sl.X.(*ssa.Alloc); ok {
+					for _, ref := range *al.Referrers() {
+						if ia, ok := ref.(*ssa.IndexAddr); ok {
+							for _, r2 := range *ia.Referrers() {
+								if st, ok := r2.(*ssa.Store); ok {
+									if ld, ok := st.Val.(*ssa.UnOp); ok {
+										if g, ok := ld.X.(*ssa.Global); ok {
+											added[g] = true
+										}
+									}
+								}
+							}
+						}
+					}
+				}
+			}
+		}
+	}
+	for _, m := range sortedKeys(w.Cmd.Members) {
+		g, ok := w.Cmd.Members[m].(*ssa.Global)
+		if !ok || g == root {
+			continue
+		}
+		pt, ok := g.Type().(*types.Pointer)
+		if !ok || !strings.HasSuffix(pt.Elem().String(), "github.com/spf13/cobra.Command") {
+			continue
+		}
+		key := "command " + g.Name() + " is registered with the root command"
+		if added[g] {
+			r.pass(rule, key, w.pos(g.Pos()), "")
+		} else {
+			r.fail(rule, key, w.pos(g.Pos()), "the command object exists but is never added to the root command: its name is treated as an argument of `compile`")
+		}
+	}
 }
 
 func isLoadOfOsArgs(v ssa.Value) bool {
@@ -1567,4 +1789,304 @@ func (w *World) flagNamesOf(g *ssa.Global) map[string]bool {
 		}
 	}
 	return w.flagBind[g]
+}
+
+// c16FormatInput: what the format command hands to the formatter is the -d text when one is given, otherwise the content of the -f file;
+// a read error or the absence of both never reaches the formatter. Decided by tracing the argument of FormatPacketDsl back to its
+// sources (through phis, conversions and cmd helpers with their parameters bound) and checking the guard of each.
+func c16FormatInput(w *World, r *Report, run *ssa.Function, call *ssa.Call) {
+	const rule = "C16/format-input"
+	type leaf struct {
+		kind string // flag | file | const | other
+		g    *ssa.Global
+		at   *ssa.BasicBlock
+		fn   *ssa.Function
+		bs   bindings
+		read *ssa.Call
+		desc string
+	}
+	var leaves []leaf
+	resolve := func(v ssa.Value, bs bindings) ssa.Value {
+		v = stripIdentity(v)
+		for i := 0; i < 6; i++ {
+			p, ok := v.(*ssa.Parameter)
+			if !ok {
+				break
+			}
+			a, bound := bs[p]
+			if !bound {
+				break
+			}
+			v = stripIdentity(a)
+		}
+		return v
+	}
+	globalOf := func(v ssa.Value, bs bindings) *ssa.Global {
+		v = resolve(v, bs)
+		if u, ok := v.(*ssa.UnOp); ok && u.Op == token.MUL {
+			if g, ok := u.X.(*ssa.Global); ok {
+				return g
+			}
+		}
+		return nil
+	}
+	seen := map[ssa.Value]bool{}
+	var trace func(v ssa.Value, fn *ssa.Function, bs bindings, at *ssa.BasicBlock, depth int)
+	trace = func(v ssa.Value, fn *ssa.Function, bs bindings, at *ssa.BasicBlock, depth int) {
+		if depth > 12 {
+			leaves = append(leaves, leaf{kind: "other", at: at, fn: fn, desc: "too deep"})
+			return
+		}
+		v = stripIdentity(v)
+		switch x := v.(type) {
+		case *ssa.Phi:
+			if seen[x] {
+				return
+			}
+			seen[x] = true
+			for i, e := range x.Edges {
+				trace(e, fn, bs, x.Block().Preds[i], depth+1)
+			}
+		case *ssa.Convert:
+			trace(x.X, fn, bs, at, depth+1)
+		case *ssa.Const:
+			leaves = append(leaves, leaf{kind: "const", at: at, fn: fn, bs: bs, desc: x.String()})
+		case *ssa.Parameter:
+			if a, ok := bs[x]; ok {
+				// bound by the caller that stepped into this helper: continue in the caller's frame is not needed for guards inside the helper
+				if g := globalOf(a, bs); g != nil {
+					leaves = append(leaves, leaf{kind: "flag", g: g, at: at, fn: fn, bs: bs})
+					return
+				}
+				leaves = append(leaves, leaf{kind: "other", at: at, fn: fn, desc: "parameter bound to a computed value"})
+				return
+			}
+			leaves = append(leaves, leaf{kind: "other", at: at, fn: fn, desc: "unbound parameter " + x.Name()})
+		case *ssa.UnOp:
+			if g, ok := x.X.(*ssa.Global); ok && x.Op == token.MUL {
+				leaves = append(leaves, leaf{kind: "flag", g: g, at: at, fn: fn, bs: bs})
+				return
+			}
+			leaves = append(leaves, leaf{kind: "other", at: at, fn: fn, desc: "load"})
+		case *ssa.Extract:
+			if c, ok := x.Tuple.(*ssa.Call); ok && x.Index == 0 {
+				if f := c.Call.StaticCallee(); f != nil && (f.String() == "os.ReadFile" || f.String() == "io/ioutil.ReadFile") {
+					leaves = append(leaves, leaf{kind: "file", g: globalOf(c.Call.Args[0], bs), at: c.Block(), fn: fn, bs: bs, read: c})
+					return
+				}
+			}
+			leaves = append(leaves, leaf{kind: "other", at: at, fn: fn, desc: "component of a call"})
+		case *ssa.Call:
+			if h := x.Call.StaticCallee(); h != nil && h.Pkg == w.Cmd && h.Blocks != nil {
+				nb := bindings{}
+				for k, val := range bs {
+					nb[k] = val
+				}
+				for i, p := range h.Params {
+					if i < len(x.Call.Args) {
+						nb[p] = x.Call.Args[i]
+					}
+				}
+				for _, b := range h.Blocks {
+					if ret, ok := b.Instrs[len(b.Instrs)-1].(*ssa.Return); ok && len(ret.Results) > 0 {
+						trace(ret.Results[0], h, nb, b, depth+1)
+					}
+				}
+				return
+			}
+			leaves = append(leaves, leaf{kind: "other", at: at, fn: fn, desc: "result of " + calleeName(x)})
+		default:
+			leaves = append(leaves, leaf{kind: "other", at: at, fn: fn, desc: fmt.Sprintf("%T", v)})
+		}
+	}
+	trace(call.Call.Args[0], run, bindings{}, call.Block(), 0)
+	// nonEmptyGuard: at is dominated by the non-empty edge of a comparison of global g's value with ""
+	nonEmptyGuard := func(fn *ssa.Function, bs bindings, g *ssa.Global, at *ssa.BasicBlock) bool {
+		for _, bb := range fn.Blocks {
+			cond := branchCond(bb)
+			if cond == nil {
+				continue
+			}
+			neg := false
+			c := cond
+			for {
+				if u, ok := c.(*ssa.UnOp); ok && u.Op == token.NOT {
+					neg = !neg
+					c = u.X
+					continue
+				}
+				break
+			}
+			bo, ok := c.(*ssa.BinOp)
+			if !ok || (bo.Op != token.NEQ && bo.Op != token.EQL) {
+				continue
+			}
+			var other ssa.Value
+			if s, ok := constString(bo.X); ok && s == "" {
+				other = bo.Y
+			} else if s, ok := constString(bo.Y); ok && s == "" {
+				other = bo.X
+			}
+			if other == nil || globalOf(other, bs) != g {
+				continue
+			}
+			nonEmptyOnTrue := bo.Op == token.NEQ
+			if neg {
+				nonEmptyOnTrue = !nonEmptyOnTrue
+			}
+			succ := 1
+			if nonEmptyOnTrue {
+				succ = 0
+			}
+			if edgeDominates(bb, succ, at) {
+				return true
+			}
+		}
+		return false
+	}
+	haveText, haveFile := false, false
+	for i, lf := range leaves {
+		switch lf.kind {
+		case "flag":
+			key := "the text handed to the formatter is the -d value, used only when it is not empty"
+			if !w.flagNamesOf(lf.g)["dsl"] {
+				r.fail(rule, fmt.Sprintf("source #%d of the formatter input is a documented input", i+1), w.pos(lf.fn.Pos()), "the formatter input can be the variable "+lf.g.Name()+", which is not the -d flag's")
+				continue
+			}
+			haveText = true
+			if nonEmptyGuard(lf.fn, lf.bs, lf.g, lf.at) {
+				r.pass(rule, key, w.pos(lf.fn.Pos()), "")
+			} else {
+				r.fail(rule, key, w.pos(lf.fn.Pos()), "the -d text reaches the formatter on a path that is not the non-empty edge of a `dsl != \"\"` test: the wrong input is chosen when both or neither are given")
+			}
+		case "file":
+			key := "the file content handed to the formatter is that of the -f file, read only when -f is given, and a read error stops the command"
+			okFile := lf.g != nil && w.flagNamesOf(lf.g)["file"] && nonEmptyGuard(lf.fn, lf.bs, lf.g, lf.at)
+			// read error: from the err != nil edge neither the formatter call nor a return of the helper is reachable
+			var errV ssa.Value
+			for _, ref := range *lf.read.Referrers() {
+				if e, ok := ref.(*ssa.Extract); ok && e.Index == 1 {
+					errV = e
+				}
+			}
+			okErr := false
+			if errV != nil {
+				for _, bb := range lf.fn.Blocks {
+					cond := branchCond(bb)
+					if cond == nil {
+						continue
+					}
+					x, nn, ok := nilTest(cond)
+					if !ok || !sameValue(x, errV) {
+						continue
+					}
+					reaches := blockReaches(bb.Succs[nn], func(i ssa.Instruction) bool {
+						if i == ssa.Instruction(call) {
+							return true
+						}
+						_, isRet := i.(*ssa.Return)
+						return isRet && lf.fn != run
+					})
+					exits := false
+					for _, b3 := range lf.fn.Blocks {
+						if edgeDominates(bb, nn, b3) {
+							for _, i3 := range b3.Instrs {
+								if ci, ok := i3.(ssa.CallInstruction); ok && exitsNonZero(ci, 0) {
+									exits = true
+								}
+							}
+						}
+					}
+					if !reaches && exits {
+						okErr = true
+					}
+				}
+			}
+			haveFile = true
+			if okFile && okErr {
+				r.pass(rule, key, w.instrPos(lf.read), "")
+			} else {
+				r.fail(rule, key, w.instrPos(lf.read), fmt.Sprintf("file read is guarded by `file != \"\"` on the -f variable: %v; a read error exits non-zero before the formatter runs: %v", okFile, okErr))
+			}
+		case "const":
+			key := fmt.Sprintf("constant input #%d only on a path that exits", i+1)
+			if noReturnBlock(lf.at) {
+				r.pass(rule, key, w.pos(lf.fn.Pos()), "")
+			} else {
+				r.fail(rule, key, w.pos(lf.fn.Pos()), "the formatter can be handed the constant "+lf.desc+" on a path that does not exit: with neither -d nor -f the command formats nothing instead of reporting the missing input")
+			}
+		default:
+			r.fail(rule, fmt.Sprintf("source #%d of the formatter input is a documented input", i+1), w.pos(lf.fn.Pos()), "the formatter input can come from "+lf.desc)
+		}
+	}
+	if !haveText || !haveFile {
+		r.fail(rule, "both documented inputs reach the formatter", w.instrPos(call), fmt.Sprintf("-d text reaches the formatter: %v; -f file content reaches the formatter: %v", haveText, haveFile))
+	}
+}
+
+
+// emptinessGuard: block at of fn is dominated by the (non-)empty edge of a comparison of global g's value with "" (the compared
+// operand may be a wrapper parameter bound, through bs, to a load of g).
+func emptinessGuard(fn *ssa.Function, bs bindings, g *ssa.Global, at *ssa.BasicBlock, wantNonEmpty bool) bool {
+	globalOf := func(v ssa.Value) *ssa.Global {
+		v = stripIdentity(v)
+		for i := 0; i < 6; i++ {
+			p, ok := v.(*ssa.Parameter)
+			if !ok {
+				break
+			}
+			a, bound := bs[p]
+			if !bound {
+				break
+			}
+			v = stripIdentity(a)
+		}
+		if u, ok := v.(*ssa.UnOp); ok && u.Op == token.MUL {
+			if gg, ok := u.X.(*ssa.Global); ok {
+				return gg
+			}
+		}
+		return nil
+	}
+	for _, bb := range fn.Blocks {
+		cond := branchCond(bb)
+		if cond == nil {
+			continue
+		}
+		neg := false
+		c := cond
+		for {
+			if u, ok := c.(*ssa.UnOp); ok && u.Op == token.NOT {
+				neg = !neg
+				c = u.X
+				continue
+			}
+			break
+		}
+		bo, ok := c.(*ssa.BinOp)
+		if !ok || (bo.Op != token.NEQ && bo.Op != token.EQL) {
+			continue
+		}
+		var other ssa.Value
+		if s, ok := constString(bo.X); ok && s == "" {
+			other = bo.Y
+		} else if s, ok := constString(bo.Y); ok && s == "" {
+			other = bo.X
+		}
+		if other == nil || globalOf(other) != g {
+			continue
+		}
+		nonEmptyOnTrue := bo.Op == token.NEQ
+		if neg {
+			nonEmptyOnTrue = !nonEmptyOnTrue
+		}
+		succ := 1
+		if nonEmptyOnTrue == wantNonEmpty {
+			succ = 0
+		}
+		if edgeDominates(bb, succ, at) {
+			return true
+		}
+	}
+	return false
 }
